@@ -301,6 +301,8 @@ int vs_cond_destroy(pthread_cond_t *c)
 int vs_cond_wait(pthread_cond_t *c, pthread_mutex_t *m)
 {
 	pthread_mutex_lock(&big);
+	/* a real thread can be preempted between testing its predicate and blocking */
+	sched_point();
 	release(m);
 	block_self(ST_COND, c);
 	acquire(m);
